@@ -30,8 +30,8 @@ pub struct SemCfg {
 }
 
 /// the first four are bound by gen_context; the others differ from them only by case, contain the
-/// `.` the tokenizer allows inside names, or start with a multi-byte character
-pub const VAR_NAMES: [&str; 7] = ["v0", "v1", "v2", "v3", "V0", "v0.1", "é1"];
+/// `.` the tokenizer allows inside names, start with a multi-byte character, or are a keyword in the wrong case
+pub const VAR_NAMES: [&str; 8] = ["v0", "v1", "v2", "v3", "V0", "v0.1", "é1", "TRUE"];
 pub const FUNC_NAMES: [&str; 4] = ["t0", "t1", "t2", "t3"];
 /// never bound by the generators; two of them coincide with globally registered functions
 pub const UNBOUND: [&str; 4] = ["u0", "u1", "sum", "vh_g0"];
@@ -467,6 +467,13 @@ fn observable(src: &mut Src, cfg: &SemCfg, sc: &SemCtx, ty: Ty, d: usize) -> R {
     }
     let (kind, name) = src.choose(&opts).clone();
     let arg = |src: &mut Src| gen_expr(src, cfg, sc, Ty::Any, d);
+    // a call of a function that nobody provides (a name never registered, or a registered name in
+    // another case): its arguments run, then the call fails
+    if src.chance(1, 16) {
+        let name = *src.choose(&["vh_nofn", "VH_G0", "SUM", "Vh_g1", "T0"]);
+        let n = src.pick(3);
+        return R::Call(name.into(), (0..n).map(|_| arg(src)).collect());
+    }
     match kind {
         0 | 4 => {
             let n = src.pick(4);
